@@ -142,6 +142,18 @@ inductive XStep : (P2P × TLState) → (P2P × TLState) → Prop
       (∀ g, g ∈ ep.handles → g < s.sync.queues.length → (rget s.localConnectStatus g).disconnected = false →
         (rget s.localConnectStatus g).lastFrame = L) →
       s.handleEventCore now .disconnected hs addr = .ok s' → XStep (s, t) (s', t)
+  /-- `update_player_disconnects` acts on the other peers' reports: `disconnect_player_at_frame` with
+  the cut-off it computed — not beyond the last frame of any still-connected player of that
+  endpoint, and not before the last frame of any player already marked (adopting a cut-off EARLIER
+  than an already dropped player's last frame is the known finding of C10; it is not a step) -/
+  | adopt (s s' : P2P) (t : TLState) (now handle addr : Nat) (ep : Endpoint) (lastFrame : Frame) :
+      s.playerType handle = some (.remote addr) → P2P.findEp s.remotes addr = some ep →
+      (∀ g, g ∈ ep.handles → g ∉ s.localPlayerHandles) → -1 ≤ lastFrame →
+      (∀ g, g ∈ ep.handles → g < s.sync.queues.length → (rget s.localConnectStatus g).disconnected = false →
+        lastFrame ≤ (rget s.localConnectStatus g).lastFrame) →
+      (∀ g, g < s.sync.queues.length → (rget s.localConnectStatus g).disconnected = true →
+        (rget s.localConnectStatus g).lastFrame ≤ lastFrame) →
+      s.disconnectPlayerAtFrame now handle lastFrame = .ok s' → XStep (s, t) (s', t)
 
 inductive XStar : (P2P × TLState) → (P2P × TLState) → Prop
   | refl (x : P2P × TLState) : XStar x x
@@ -193,6 +205,10 @@ theorem XInv_step (x y : P2P × TLState) (h : XInv x) (hs : XStep x y) : XInv y 
         fun x hx => ⟨conn_of_marks h.marks x (hconn x hx), hsame x (hsub x hx) (hlt x hx).2 (hconn x hx)⟩, hL0, hsame⟩
     obtain ⟨h', _⟩ := dropFold_specD gh t [] st0 now addr ep.handles L hs s s1 h cfg hfold
     exact ⟨gh, st0, SessInvD_congr s1 _ gh t [] st0 h' ⟨rfl, rfl, rfl, rfl, rfl, rfl, rfl, rfl, rfl⟩⟩
+  | adopt s s' t now handle addr ep lf hpt hep hrem hl0 hlow hdead hdrop =>
+    obtain ⟨h', _⟩ := drop_specG s s' gh t [] st0 now handle addr lf ep h hpt hep hrem hl0 hlow
+      (fun g hg hgg => hdead g hg (h.marks.mono g (h.tinv.sync.gone g hg hgg).dead)) hdrop
+    exact ⟨gh, st0, h'⟩
 
 /-- **L-drop.** The session invariant with dead players holds after every sequence of arrivals,
 calls and locally detected drops. -/
